@@ -302,6 +302,32 @@ def key_quotable(key):
     return triple_ok
 
 
+def cif2_disallowed(units):
+    """does the string hold a character CIF 2.0 does not allow (cif_has_disallowed_chars of utils.c): C0 controls except TAB LF
+    CR, U+007F-U+009F, U+FDD0-U+FDEF, U+FFFE, U+FFFF, an unpaired surrogate, U+xxFFFE / U+xxFFFF"""
+    i, n = 0, len(units)
+    while i < n:
+        c = units[i]
+        if c < 0xD800 or c > 0xDFFF:
+            if (c < 0x20 and c not in (9, 10, 13)) or 0x7F <= c < 0xA0 or 0xFDCF < c < 0xFDF0 or c > 0xFFFD:
+                return True
+        elif c >= 0xDC00:
+            return True
+        else:
+            if i + 1 >= n or not (0xDC00 <= units[i + 1] <= 0xDFFF):
+                return True
+            if (units[i + 1] & 0x3FE) == 0x3FE and (c & 0x3F) == 0x3F:
+                return True
+            i += 1
+        i += 1
+    return False
+
+
+def first_line_fills(key):
+    """several lines, the first of exactly LINE - 3 units: the opening triple delimiter + first line fill a line"""
+    return 10 in key and list(key).index(10) + 3 == LINE
+
+
 # ---------------------------------------------------------------------------------------------------------------------
 # the oracle (shared): `ver`, request tokens describing the CIF, parsed observation
 
@@ -324,12 +350,16 @@ def check_output(ver, req_tokens, d):
                     return None
                 return "CIF 1.1: CIF_DISALLOWED_CHAR without a character outside the CIF 1.1 set"
             if rc == CIF_DISALLOWED_VALUE:
-                if nested or any(any(s[j] == 10 and s[j + 1] == 59 for j in range(len(s) - 1)) for _, _, s in strings):
+                if nested or any(any(s[j] in (10, 13) and s[j + 1] == 59 for j in range(len(s) - 1)) for _, _, s in strings):
                     return None
-                return "CIF 1.1: CIF_DISALLOWED_VALUE without a list, a table or a string containing <LF>;"
+                return "CIF 1.1: CIF_DISALLOWED_VALUE without a list, a table or a string containing a line terminator followed by ;"
             return "CIF 1.1: cif_write failed with code %d (only CIF_DISALLOWED_VALUE / CIF_DISALLOWED_CHAR are documented)" % rc
         if rc == CIF_DISALLOWED_VALUE and any(not key_quotable(k) for k in keys):
             return None
+        if rc in (CIF_DISALLOWED_VALUE, CIF_DISALLOWED_CHAR) and (any(13 in s for _, _, s in strings) or any(13 in k for k in keys)):
+            return None                               # a string holding a CR: outside the totality clause ("no CR")
+        if rc == CIF_DISALLOWED_CHAR and (any(cif2_disallowed(s) for _, _, s in strings) or any(cif2_disallowed(k) for k in keys)):
+            return None                               # not "strings of CIF 2.0 characters": outside the totality clause
         return "cif_write failed with code %d on a writable CIF" % rc
     data = out_bytes(d.get("out"))
     magic = b"#\\#CIF_1.1\n" if ver == 1 else b"#\\#CIF_2.0\n"
@@ -364,6 +394,13 @@ def known_class(ver, req_tokens, d):
     40af3df are gone: a recurrence is a violation.)"""
     if d is None or d.get("b") != 0:
         return None
+    if d.get("rc") == CIF_DISALLOWED_VALUE and ver != 1:
+        # open finding F-key-first-line: every key is writable, and one of them has several lines, the first of exactly
+        # LINE - 3 units (cif_analyze_string asks `first_line < length_limit - 3`)
+        _, _, keys, _ = request_strings(req_tokens)
+        if keys and all(key_quotable(k) for k in keys) and any(first_line_fills(k) for k in keys):
+            return "multiline-key-first-line-fills-line-refused"
+        return None
     if d.get("rc") != 0:
         return None
     why0 = check_output(ver, req_tokens, d)
@@ -375,6 +412,21 @@ def known_class(ver, req_tokens, d):
         d2["back"] = d2["orig"]
         if check_output(ver, req_tokens, d2) is None:
             return "unquoted-overlong-line-comes-back-quoted"
+    # open finding F-cr-altered: a string (or key) holding a CR is written with the CR as it is; every reader takes the CR for
+    # (part of) a line terminator, so the content comes back altered (CR -> LF, CR LF -> LF, a final CR of a text field lost, a
+    # backslash before the CR read as a fold), and lines counted at LF only may look over-long.  Any oracle failure of a
+    # successful write of such a CIF is this finding (strings with CR are outside the property's totality clause).
+    _, strings, keys, _ = request_strings(req_tokens)
+    if any(13 in s for _, _, s in strings) or any(13 in k for k in keys):
+        return "cr-in-string-comes-back-lf"
+    # open finding F-disallowed-char-written (CIF 2.0 mode only): a string holding a character CIF 2.0 does not allow is written
+    # as it is; the re-parse reports CIF_DISALLOWED_CHAR (and nothing else is wrong)
+    if ver != 1 and any(cif2_disallowed(s) for _, _, s in strings) and d.get("prc") == 0 \
+            and set((d.get("errs") or "").split(",")) == {str(CIF_DISALLOWED_CHAR)}:
+        d2 = dict(d)
+        d2["errs"] = "-"
+        if check_output(ver, req_tokens, d2) is None:
+            return "cif2-disallowed-character-written"
     return None
 
 
@@ -561,10 +613,40 @@ def w_cif(r, ver, value):
     return toks
 
 
+def order_case(r):
+    """CIF 1.1 mode, C13_first_refused: a CIF holding elements of BOTH refusal kinds (a character outside CIF 1.1 in a code, a
+    data name or a string: CIF_DISALLOWED_CHAR; a list, a table, a string that needs a text field and holds <LF>; :
+    CIF_DISALLOWED_VALUE) in random order among harmless items, as scalars or in a loop, in a block or a save frame — the code
+    cif_write returns is that of the element its walk meets first"""
+    bad_char = [["C1:" + hexs("\u00e9")], ["C0:" + hexs("x\u00e9")], ["C1:" + hexs("\u00e9\n;x")]]
+    bad_value = [["[", "]"], ["{", "}"], ["[", "C1:" + hexs("\u00e9"), "]"], ["C1:" + hexs("y\n;x")], ["{", "K:" + hexs("\u00e9"), "U", "}"]]
+    good = [["U"], ["N"], ["C0:" + hexs("v")], ["C1:" + hexs("a b")], ["M0:" + hexs("12")]]
+    vals = [r.choice(bad_char), r.choice(bad_value)] + [r.choice(good) for _ in range(r.randint(0, 2))]
+    if r.random() < 0.3:
+        vals.append(r.choice(bad_char + bad_value))
+    r.shuffle(vals)
+    names = ["_a", "_b", "_c", "_d", "_e"][:len(vals)]
+    if r.random() < 0.25:
+        names[r.randrange(len(names))] = "_\u00e9"                  # a bad data name: met before its value
+    if r.random() < 0.5:
+        loop = ["L:-:%d" % len(vals)] + [hexs(x) for x in names] + ["P"] + [t for v in vals for t in v] + ["Z"]
+    else:
+        loop = ["L:~:%d" % len(vals)] + [hexs(x) for x in names] + ["P"] + [t for v in vals for t in v] + ["Z"]
+    code = "\u00e9" if r.random() < 0.15 else "b"
+    if r.random() < 0.3:
+        body = ["F:" + hexs("f")] + loop + ["E"] + (["L:-:1", hexs("_z")] + ["P"] + r.choice(bad_char + bad_value + good) + ["Z"])
+    else:
+        body = loop
+    return ["B:" + hexs(code)] + body + ["E"]
+
+
 def generate_for(ver, family, seed, tier):
     r = rng(seed, family)
     n = 500 if tier == "quick" else 12000
     for i in range(n):
+        if ver == 1 and r.random() < 0.08:
+            yield "write %d %s" % (ver, " ".join(order_case(r)))
+            continue
         toks = w_cif(r, ver, make_value_fn(ver))
         yield "write %d %s" % (ver, " ".join(toks) if toks else "-")
 
